@@ -200,8 +200,12 @@ func checkC03(r *Run) {
 				continue
 			}
 			base, elems, ok := c.appendChain(st.Val)
-			if _, isRQ := isLoadOfField(base, a.RetryQueue); ok && isRQ && len(elems) >= 1 {
-				r2.OK(key, st.Pos(), "tail append")
+			if _, isRQ := isLoadOfField(base, a.RetryQueue); ok && isRQ {
+				if len(elems) >= 1 {
+					r2.OK(key, st.Pos(), "tail append")
+				} else {
+					r2.OK(key, st.Pos(), "append of an empty list (no change)")
+				}
 				continue
 			}
 			r2.Bad(key, st.Pos(), "the retry queue is modified other than by a tail append (prepend / insertion / overwrite): retransmission order is permuted or entries are lost")
